@@ -100,7 +100,7 @@ OpOK(T, op) ==
     [] op.op = "addex"  -> Has(T, "agents", op.k)
     [] op.op \in {"del", "delpath"} -> Has(T, "agents", op.k)
     [] op.op = "gen"    -> ~Has(T, "agents", op.k)
-    [] op.op = "div"    -> Has(T, "agents", op.k) /\ ~Has(T, "agents", op.d1)
+    [] op.op \in {"div", "divx"} -> Has(T, "agents", op.k) /\ ~Has(T, "agents", op.d1)
                            /\ ~Has(T, "agents", op.d2) /\ op.d1 # op.d2
                            /\ op.d1 # op.k /\ op.d2 # op.k
     [] op.op \in {"move", "moveupd"} -> Has(T, "agents", op.k) /\ ~Has(T, "pool", op.k)
@@ -126,6 +126,13 @@ Struct(S, op) ==
          LET m == S.tree["agents"][op.k]
              S1 == PutS(S, "agents", op.d1, NewComp(m.tpl, m.x), New)
              S2 == PutS(S1, "agents", op.d2, NewComp(m.tpl, m.x), New)
+         IN DelS(S2, "agents", op.k)
+    \* a division whose daughter entries list an initial state for x: the
+    \* daughters hold what is listed, not what the mother's divider yields
+    [] op.op = "divx" ->
+         LET m == S.tree["agents"][op.k]
+             S1 == PutS(S, "agents", op.d1, NewComp(m.tpl, op.x0), New)
+             S2 == PutS(S1, "agents", op.d2, NewComp(m.tpl, op.x0), New)
          IN DelS(S2, "agents", op.k)
     [] op.op = "move" ->
          LET m == S.tree["agents"][op.k]
@@ -261,6 +268,7 @@ Ops ==
   \cup {[op |-> o, k |-> k] : o \in {"del", "delpath", "move", "moveupd", "moveback"}, k \in Names}
   \cup {[op |-> "gen", k |-> k, tpl |-> t, x0 |-> x] : k \in Names, t \in Tpls, x \in {0, 5}}
   \cup {[op |-> "div", k |-> k, d1 |-> a, d2 |-> b] : k \in Names, a \in Names, b \in Names}
+  \cup {[op |-> "divx", k |-> k, d1 |-> a, d2 |-> b, x0 |-> 7] : k \in Names, a \in Names, b \in Names}
   \cup {[op |-> "adddel", k |-> k, x0 |-> 5, k2 |-> j] : k \in Names, j \in Names}
   \cup {[op |-> "gendel", k |-> k, tpl |-> t, x0 |-> 0, k2 |-> j] : k \in Names, t \in Tpls, j \in Names}
   \cup {[op |-> "gen2", k |-> k, tpl |-> t, x0 |-> 0, k2 |-> j] : k \in Names, t \in Tpls, j \in Names}
@@ -324,6 +332,12 @@ C09_Effects ==
                   Has(tree', "agents", d) /\ origin'[<<"agents", d>>] = New
                   /\ tree'["agents"][d].tpl = tree["agents"][op.k].tpl
                   /\ tree'["agents"][d].x = tree["agents"][op.k].x + Own(tree["agents"][op.k]))
+      /\ op.op = "divx" =>
+           (~Has(tree', "agents", op.k)
+            /\ \A d \in {op.d1, op.d2} :
+                  Has(tree', "agents", d) /\ origin'[<<"agents", d>>] = New
+                  /\ tree'["agents"][d].tpl = tree["agents"][op.k].tpl
+                  /\ tree'["agents"][d].x = op.x0)
       /\ op.op = "moveupd" =>
            (~Has(tree', "agents", op.k) /\ Has(tree', "pool", op.k)
             /\ origin'[<<"pool", op.k>>] = <<"agents", op.k>>
